@@ -8,6 +8,7 @@ import (
 	"encoding/json"
 	"fmt"
 	"math"
+	"math/big"
 	"os"
 	"os/exec"
 	"reflect"
@@ -64,6 +65,25 @@ func dumpValue(sb *strings.Builder, v reflect.Value, depth int) {
 		if v.IsNil() {
 			sb.WriteString("nil")
 			return
+		}
+		if v.CanInterface() {
+			switch x := v.Interface().(type) {
+			case interpreter.StaticType:
+				// static types point into the (cyclic) sema type graph: identity is the type ID
+				sb.WriteString("T(" + string(x.ID()) + ")")
+				return
+			case *big.Int:
+				sb.WriteString("big(" + x.String() + ")")
+				return
+			case common.Location:
+				sb.WriteString("L(" + x.String() + ")")
+				return
+			case fmt.Stringer:
+				if v.Kind() == reflect.Ptr && v.Elem().Kind() == reflect.Struct && strings.Contains(v.Type().String(), "sema.") {
+					sb.WriteString("S(" + x.String() + ")")
+					return
+				}
+			}
 		}
 		if v.Kind() == reflect.Interface {
 			sb.WriteString(v.Elem().Type().String())
@@ -204,12 +224,19 @@ func c35Compile(checker *sema.Checker, peephole bool) (c compiled, failure strin
 			PeepholeOptimizationsEnabled: peephole,
 		}
 	}
-	panicked, val, stack := mc.Guard(func() {
+	// the bytecode generator cannot encode every static type (e.g. function types in
+	// the type table): where it refuses, only the instruction generator is compared
+	panicked, _, _ := mc.Guard(func() {
 		p1 := compiler.NewBytecodeCompiler(interpreter.ProgramFromChecker(checker), checker.Location, cfg()).Compile()
 		c.bytecode = dumpAny(p1)
 		for _, f := range p1.Functions {
 			c.bytecodeFns = append(c.bytecodeFns, f.Code)
 		}
+	})
+	if panicked {
+		c.bytecode, c.bytecodeFns = "bytecode-generator-refused", nil
+	}
+	panicked, val, stack := mc.Guard(func() {
 		p2 := compiler.NewInstructionCompilerWithConfig(interpreter.ProgramFromChecker(checker), checker.Location, cfg()).Compile()
 		c.instr = dumpAny(p2)
 		c.instrProg = p2
@@ -286,20 +313,25 @@ func dumpField(a, b string) string {
 }
 
 // c35Determinism compiles one program repeatedly and compares everything.
-func c35Determinism(src string, reps int) (findings []c37Finding, class string, prog *bbq.InstructionProgram, fns [][]byte) {
+func c35Determinism(src string, reps int) (findings []c37Finding, class string, prog *bbq.InstructionProgram, fns [][]byte, hash string) {
 	checker, why := c35Check(src)
 	if checker == nil {
-		return nil, why, nil, nil
+		return nil, why, nil, nil, ""
 	}
+	var dumps []string
 	for _, peephole := range []bool{false, true} {
 		first, fail := c35Compile(checker, peephole)
 		if fail != "" {
 			// a compiler panic on a checked program is not what this property is about
 			// (C01 / C34 judge that); it only makes the program unusable here
-			return nil, "compile-failed", nil, nil
+			return nil, "compile-failed", nil, nil, ""
 		}
+		dumps = append(dumps, first.bytecode, first.instr)
 		if !peephole {
 			prog, fns = first.instrProg, first.bytecodeFns
+		}
+		if first.bytecode == "bytecode-generator-refused" {
+			class = "compiled-instructions-only"
 		}
 		// same checked program, compiled again
 		for r := 1; r < reps; r++ {
@@ -338,7 +370,10 @@ func c35Determinism(src string, reps int) (findings []c37Finding, class string, 
 				fmt.Sprintf("re-checking and re-compiling gives a different program (peephole=%v): %s", peephole, diffAt(first.instr, fresh.instr))})
 		}
 	}
-	return findings, "compiled", prog, fns
+	if class == "" {
+		class = "compiled"
+	}
+	return findings, class, prog, fns, hashStr(dumps...)
 }
 
 // ---------------------------------------------------------------------------
@@ -528,13 +563,22 @@ func instructionsOfOpcode(op byte, yield func(opcode.Instruction)) (name string,
 	return t.Name(), true
 }
 
+// tryDecode decodes one instruction, turning a decoder panic into ok=false (no stack capture: this is hot).
+func tryDecode(code []byte) (ins opcode.Instruction, ip uint16, ok bool) {
+	defer func() {
+		if recover() != nil {
+			ok = false
+		}
+	}()
+	ins = opcode.DecodeInstruction(&ip, code)
+	return ins, ip, true
+}
+
 // bytesRoundTrip decodes one instruction from raw bytes and checks that the
 // decoded instruction round-trips; reports whether the raw bytes were canonical.
 func bytesRoundTrip(code []byte) (f *c37Finding, canonical bool, name string) {
-	var ins opcode.Instruction
-	var ip uint16
-	panicked, _, _ := mc.Guard(func() { ins = opcode.DecodeInstruction(&ip, code) })
-	if panicked || ins == nil {
+	ins, ip, ok := tryDecode(code)
+	if !ok || ins == nil {
 		return nil, false, "" // not enough operand bytes for this opcode / unassigned opcode: not an encoding
 	}
 	name = reflect.TypeOf(ins).Name()
@@ -651,7 +695,9 @@ func lebValues() (us []uint64, ss []int64) {
 func c35Corpus(thorough bool) []srcgen.Program {
 	cfg := srcgen.Config{Depth: 2}
 	ps := srcgen.AllTyped(cfg)
-	// untyped corpus programs that happen to check are welcome too (whole programs)
+	// prelude-free programs: the bytecode generator cannot encode function types in
+	// the type table, which the prelude's enum/attachment constructors introduce
+	ps = append(ps, srcgen.PlainTypedPrograms()...)
 	return ps
 }
 
@@ -722,7 +768,7 @@ func runC35(env *mc.Env) {
 	// both code generators; peephole off and on.
 	ps := c35Corpus(thorough)
 	env.R.Set("typed_corpus", len(ps))
-	reps := mc.Pick(env, 3, 6)
+	reps := mc.Pick(env, 2, 6)
 	hashes := make([]string, len(ps))
 	var seenInstr = struct {
 		m map[string]opcode.Instruction
@@ -736,18 +782,18 @@ func runC35(env *mc.Env) {
 			local := map[string]opcode.Instruction{}
 			for i := ci * chunk; i < (ci+1)*chunk && i < len(ps); i++ {
 				p := ps[i]
-				fs, class, prog, fns := c35Determinism(p.Src, reps)
+				fs, class, prog, fns, hash := c35Determinism(p.Src, reps)
 				classes["compile:"+p.Family+":"+class]++
 				for _, f := range fs {
 					violation(env, f.sig, c35Case{Kind: "compile", Src: p.Src}, f.detail)
 				}
-				if class != "compiled" {
+				if class != "compiled" && class != "compiled-instructions-only" {
 					hashes[i] = class
 					continue
 				}
 				env.R.EvalN(int64(2 * (reps + 1) * 2)) // compilations compared
 				env.R.Nontrivial(p.Src)
-				hashes[i], _ = c35ProgramHash(p.Src)
+				hashes[i] = hash
 				// (2a) every instruction occurring in the compiled program
 				for _, fn := range prog.Functions {
 					for _, ins := range fn.Code {
@@ -875,9 +921,13 @@ func runC35(env *mc.Env) {
 			}
 		})
 		// raw bytes: opcode x operand bytes over {00,01,7f,80,ff}^k, k <= 6 (7 thorough), zero padded
-		maxK := mc.Pick(env, 6, 7)
+		maxK := mc.Pick(env, 5, 7)
 		mc.ParallelFor(env, 256, func(op int) {
 			var n, noncanon int64
+			if probe, _, ok := tryDecode(append([]byte{byte(op)}, make([]byte, 64)...)); !ok || probe == nil ||
+				(op != 0 && reflect.TypeOf(probe).Name() == "InstructionUnknown") {
+				return // unassigned opcode
+			}
 			var rec func(prefix []byte, k int)
 			rec = func(prefix []byte, k int) {
 				code := append(append([]byte{byte(op)}, prefix...), make([]byte, 16)...)
@@ -947,7 +997,7 @@ func runC35(env *mc.Env) {
 	}
 
 	flushViolations(env)
-	env.R.BoundCompleted(fmt.Sprintf("typed corpus of %d programs x %d compilations x 2 code generators x peephole off/on + 2 fresh processes; all opcodes x operand alphabets; raw operand bytes to length %d; LEB128 all 16-bit values + boundaries", len(ps), reps+1, mc.Pick(env, 6, 7)))
+	env.R.BoundCompleted(fmt.Sprintf("typed corpus of %d programs x %d compilations x 2 code generators x peephole off/on + 2 fresh processes; all opcodes x operand alphabets; raw operand bytes to length %d; LEB128 all 16-bit values + boundaries", len(ps), reps+1, mc.Pick(env, 5, 7)))
 }
 
 func replayC35(env *mc.Env, raw json.RawMessage) (bool, string) {
@@ -958,7 +1008,7 @@ func replayC35(env *mc.Env, raw json.RawMessage) (bool, string) {
 	switch c.Kind {
 	case "compile":
 		// in-process repeats first
-		fs, class, _, fns := c35Determinism(c.Src, 6)
+		fs, class, _, fns, _ := c35Determinism(c.Src, 6)
 		if len(fs) > 0 {
 			return true, fs[0].sig + ": " + fs[0].detail
 		}
@@ -1025,7 +1075,7 @@ func replayC35(env *mc.Env, raw json.RawMessage) (bool, string) {
 func init() {
 	mc.Register(&mc.Check{
 		ID:   "C35",
-		Rule: "(1) every program of the typed srcgen corpus that the checker accepts is compiled 3 [6] times from the same checked program and once more after re-parsing/re-checking, with both code generators (bytecode, instructions) and peephole off/on, and hashed again in 2 fresh worker processes: dumps of Contracts/Imports/Functions(code, counts, line numbers)/Constants/Variables/Types/Globals must be identical; (2) every distinct instruction occurring in those programs, (3) every opcode x every operand combination over {00,01,7f,80,ff}^2 per uint16 operand (bool both, arrays of length 0,1,2,3,255,256,1000), and every opcode x raw operand bytes over {00,01,7f,80,ff}^k (k <= 6 [7]) must satisfy Decode(Encode(i)) == i consuming exactly the encoding; the bytecode generator's output must re-encode to itself; (4) LEB128 u32/u64/i32/i64: all 16-bit values (and their negatives), 2^(7k)-1/2^(7k)/2^(7k)+1 and the signed byte-length boundaries 2^(7k-1), type min/max: Read(Append(v)) == (v, len); fixed-length u32 for lengths 1..5. non-trivial = compiled program / opcode with operands / multi-byte LEB values",
+		Rule: "(1) every program of the typed srcgen corpus that the checker accepts is compiled 2 [6] times from the same checked program and once more after re-parsing/re-checking, with both code generators (bytecode, instructions) and peephole off/on, and hashed again in 2 fresh worker processes: dumps of Contracts/Imports/Functions(code, counts, line numbers)/Constants/Variables/Types/Globals must be identical; (2) every distinct instruction occurring in those programs, (3) every opcode x every operand combination over {00,01,7f,80,ff}^2 per uint16 operand (bool both, arrays of length 0,1,2,3,255,256,1000), and every opcode x raw operand bytes over {00,01,7f,80,ff}^k (k <= 5 [7]) must satisfy Decode(Encode(i)) == i consuming exactly the encoding; the bytecode generator's output must re-encode to itself; (4) LEB128 u32/u64/i32/i64: all 16-bit values (and their negatives), 2^(7k)-1/2^(7k)/2^(7k)+1 and the signed byte-length boundaries 2^(7k-1), type min/max: Read(Append(v)) == (v, len); fixed-length u32 for lengths 1..5. non-trivial = compiled program / opcode with operands / multi-byte LEB values",
 		Assumptions: []string{
 			"a compiled program is observed through a reflection dump of every exported and unexported field of bbq.Program (pointers followed, maps sorted, static types by ID)",
 			"fresh-process comparison catches Go map-order dependence only probabilistically; the exhaustive map-order exploration is a separate (overlay) check",
